@@ -112,7 +112,7 @@ def execute(spec, chooser):
         case, spec["workers"], timeout, chooser, threshold=spec.get("threshold"),
         max_steps=spec.get("max_steps", RUN_CAP), deadline_slack=slack,
         speeds=spec.get("speeds"), start_delays=spec.get("delays"),
-        parent_cost=spec.get("parent_cost"))
+        parent_cost=spec.get("parent_cost"), rtt=spec.get("rtt"))
     return res
 
 
